@@ -258,7 +258,22 @@ class Interp:
         if name == "insert":
             i, x = args
             if isinstance(i, SInt):
-                raise Unsupported("insert at symbolic index")
+                # allowed when the position provably is a boundary between list items
+                off = z3.IntVal(0)
+                pos = None
+                for k in range(len(lst) + 1):
+                    ok, _ = c.valid(zint(i) == off)
+                    if ok:
+                        pos = k
+                        break
+                    if k < len(lst):
+                        e = lst[k]
+                        off = off + (zint(e.length) * len(e.items) if isinstance(e, Seg) else 1)
+                if pos is None:
+                    raise Unsupported("insert at a symbolic index that is not a segment boundary")
+                lst.insert(pos, x)
+                eff("insert", lst, pos, x)
+                return None
             if has_seg(lst) and i != 0:
                 # position must fall into the concrete prefix
                 if any(isinstance(e, Seg) for e in lst[:i]) or i < 0:
@@ -409,6 +424,8 @@ class Interp:
     def getattr(self, obj, name):
         ops.check_usable(obj)
         if isinstance(obj, Opaque):
+            if name in obj.props.get("methods", {}) and name not in obj.fields:
+                return SymMethod(obj, name)
             v = ops.opaque_getattr(obj, name)
             return v
         if isinstance(obj, list):
